@@ -164,7 +164,7 @@ func RunTLCIn(work string, o TLCOpts) TLCResult {
 		line, err := rd.ReadBytes('\n')
 		if len(line) > 0 {
 			l := bytes.TrimRight(line, "\r\n")
-			if len(l) > 1 && l[0] == '"' && l[1] == '{' {
+			if len(l) > 1 && l[0] == '"' && (l[1] == '{' || l[1] == '[') {
 				// a JSON value printed with PrintT(ToJson(..)): a TLA+ string literal
 				var s string
 				if e := json.Unmarshal(l, &s); e == nil {
